@@ -211,6 +211,81 @@ pub fn eval(c: &Case7) -> Result<&'static str, (&'static str, String)> {
     }
 }
 
+/// the same case with the unknown element at a file boundary: (0) the element alone in an include file, (1) the
+/// element last in the main file in front of an include of the following line, (2) the element last in an include
+/// file that starts one line earlier. Judged like `eval` (non-strict part), loading from files.
+pub fn eval_include(c: &Case7, dir: &std::path::Path, variant: usize) -> Result<&'static str, (&'static str, String)> {
+    let wl: Vec<&str> = c.with.lines().collect();
+    let ol: Vec<&str> = c.without.lines().collect();
+    // (an A2ML block spans several lines as one token: a cut by lines could fall inside it)
+    if wl.len() <= ol.len() || c.tag.contains('+') || c.with.contains("A2ML") {
+        return Ok("include: not applicable");
+    }
+    // the inserted lines: common prefix / suffix by whole lines
+    let mut a = 0;
+    while a < ol.len() && wl[a] == ol[a] {
+        a += 1;
+    }
+    let mut k = 0;
+    while k < ol.len() - a && wl[wl.len() - 1 - k] == ol[ol.len() - 1 - k] {
+        k += 1;
+    }
+    let b = wl.len() - k; // inserted lines are wl[a..b]
+    if a + (ol.len() - a - k) != b - (wl.len() - ol.len()) || a < 2 || b + 1 >= wl.len() || a >= b {
+        return Ok("include: not applicable");
+    }
+    let (ia, ib) = match variant {
+        0 => (a, b),
+        1 => (b, b + 1),
+        _ => (a - 1, b),
+    };
+    let mut main = String::new();
+    let mut inc = String::new();
+    for (i, l) in wl.iter().enumerate() {
+        if i == ia {
+            main.push_str("/include inc.a2l\n");
+        }
+        if i >= ia && i < ib {
+            inc.push_str(l);
+            inc.push('\n');
+        } else {
+            main.push_str(l);
+            main.push('\n');
+        }
+    }
+    let _ = std::fs::create_dir_all(dir);
+    let mp = dir.join("main.a2l");
+    if std::fs::write(&mp, &main).is_err() || std::fs::write(dir.join("inc.a2l"), &inc).is_err() {
+        return Ok("include: scratch not writable");
+    }
+    let base = match load(&c.without, None, false) {
+        Loaded::Ok(f, l) if l.is_empty() => f,
+        _ => return Ok("base document not clean"),
+    };
+    // the split itself must be transparent for the unknown-free reading: compare with the flat text first
+    let flat = match load(&c.with, None, false) {
+        Loaded::Ok(f, log) if log.len() == 1 && f == base => f,
+        _ => return Ok("include: flat case not clean"),
+    };
+    let _ = flat;
+    match vcore::explore::guard(|| a2lfile::load(&mp, None, false)) {
+        Err(p) => Err(("panic", p)),
+        Ok(Err(e)) => Err(("lax-fails", format!("non-strict loading fails: {e}"))),
+        Ok(Ok((f, log))) => {
+            if log.len() != 1 {
+                return Err(("warning-count", format!("{} warnings instead of 1: {}", log.len(), log.iter().map(|e| e.to_string()).collect::<Vec<_>>().join(" || "))));
+            }
+            if unknown_tags(&log) != vec![c.tag.clone()] {
+                return Err(("warning-kind", format!("the warning does not name {}: {}", c.tag, log[0])));
+            }
+            if f != base {
+                return Err(("model-changed", "the rest of the files is not loaded as if the unknown element were absent".into()));
+            }
+            Ok("include: skipped locally")
+        }
+    }
+}
+
 pub fn run(tier: &str) -> Run {
     let mut run = Run::new("C07", tier);
     let g = corpus::grammar();
@@ -241,8 +316,44 @@ pub fn run(tier: &str) -> Run {
             run.sample(json!({"label": cases[i].label, "text": short(&cases[i].with, 400)}));
         }
     }
+    // the unknown element at a file boundary (every 3rd case; thorough: every case)
+    let scratch = {
+        let base = if std::path::Path::new("/dev/shm").is_dir() { "/dev/shm".to_string() } else { std::env::temp_dir().to_string_lossy().into_owned() };
+        std::path::PathBuf::from(base).join(format!("verif-c07-{}", std::process::id()))
+    };
+    let step = if tier == "thorough" { 1 } else { 3 };
+    let idx: Vec<usize> = (0..cases.len()).step_by(step).collect();
+    let ires = par_map(
+        idx.len() * 3,
+        &|j| {
+            use std::hash::{Hash, Hasher};
+            let mut h = std::collections::hash_map::DefaultHasher::new();
+            std::thread::current().id().hash(&mut h);
+            eval_include(&cases[idx[j / 3]], &scratch.join(format!("t{}", h.finish() % 4096)), j % 3)
+        },
+        &|j| {
+            println!("MACHINERY-ERROR: C07 include case hangs: {}", cases[idx[j / 3]].label);
+            std::process::exit(2);
+        },
+    );
+    let _ = std::fs::remove_dir_all(&scratch);
+    for (j, r) in ires.into_iter().enumerate() {
+        run.evaluations += 1;
+        run.transitions += 3;
+        let c = &cases[idx[j / 3]];
+        let place = ["alone-in-include", "before-include", "last-in-include"][j % 3];
+        match r {
+            Ok(o) => run.outcome(o),
+            Err((o, w)) => {
+                run.outcome("violation");
+                let key = if o == "panic" { format!("C07/panic {}", vcore::explore::panic_key(&w)) } else { format!("C07/{o}/{}:{place}", c.class) };
+                run.violation(key, format!("{} ({place}): {w}", c.label), json!({"with": c.with, "without": c.without, "tag": c.tag, "label": c.label, "class": c.class, "include_variant": j % 3}));
+            }
+        }
+    }
+    run.require("include: skipped locally", 1000);
     run.require("skipped locally", 3000);
-    run.rule = "every block of the grammar that has a tagged region (its carrier and the carrier with each optional child) x every child position (before first, between, after last) x 12 unknown payloads (keyword with/without scalar arguments, block empty / with arguments / nested / nested twice / same-tag nested / with comments / with a string containing '/end TAG'); thorough: two unknown elements per block and pairs of children. Oracle: non-strict Ok with exactly one UnknownSubBlock warning naming the tag and a model equal to that of the document without the payload; strict Err(UnknownSubBlock) naming the tag. Scope restrictions of the statement applied (no bare keyword behind an open-ended list).".into();
+    run.rule = "every block of the grammar that has a tagged region (its carrier and the carrier with each optional child) x every child position (before first, between, after last) x 12 unknown payloads (keyword with/without scalar arguments, block empty / with arguments / nested / nested twice / same-tag nested / with comments / with a string containing '/end TAG'); thorough: two unknown elements per block and pairs of children. Oracle: non-strict Ok with exactly one UnknownSubBlock warning naming the tag and a model equal to that of the document without the payload; strict Err(UnknownSubBlock) naming the tag. Every 3rd (thorough: every) case again with the unknown element at a file boundary (alone in an include file, last in the main file in front of an include, last in an include file), loaded from files. Scope restrictions of the statement applied (no bare keyword behind an open-ended list).".into();
     run
 }
 
@@ -254,6 +365,15 @@ pub fn replay(v: &Value) -> Result<String, String> {
         without: v["without"].as_str().ok_or("no text")?.into(),
         tag: v["tag"].as_str().unwrap_or("UNKNOWN_TAG").into(),
     };
+    if let Some(vn) = v["include_variant"].as_u64() {
+        let d = std::env::temp_dir().join(format!("verif-c07-replay-{}", std::process::id()));
+        let r = eval_include(&c, &d, vn as usize);
+        let _ = std::fs::remove_dir_all(&d);
+        return match r {
+            Ok(o) => Ok(o.to_string()),
+            Err((o, w)) => Err(format!("{o}: {w}")),
+        };
+    }
     match eval(&c) {
         Ok(o) => Ok(o.to_string()),
         Err((o, w)) => Err(format!("{o}: {w}")),
